@@ -149,6 +149,7 @@ func cmdCheck(args []string) int {
 	}
 	discharged := 0
 	var dischargedKeys []string
+	retCanaries, retFeasible := map[string]int{}, map[string]int{}
 	for _, r := range out.runs {
 		for _, e := range r.errs {
 			out.engineErrs = append(out.engineErrs, e)
@@ -162,6 +163,12 @@ func cmdCheck(args []string) int {
 			if o.Kind == "canary" {
 				if st == "unsat" && o.Label == "entry" {
 					out.canaryFail = append(out.canaryFail, o)
+				}
+				if o.Label == "return" {
+					retCanaries[o.Func]++
+					if st != "unsat" {
+						retFeasible[o.Func]++
+					}
 				}
 				continue
 			}
@@ -180,6 +187,11 @@ func cmdCheck(args []string) int {
 			default:
 				out.undecided = append(out.undecided, o)
 			}
+		}
+	}
+	for f, n := range retCanaries {
+		if n > 0 && retFeasible[f] == 0 {
+			out.engineErrs = append(out.engineErrs, "no sampled return path of "+f+" is reachable under its assumptions (vacuity guard)")
 		}
 	}
 	out.wall = time.Since(t0).Seconds()
